@@ -32,6 +32,15 @@
 (*                                  rejected asked-but-not-pruned, class held         *)
 (*  K1 as W1's first proof, the kept root cell has lost its first data bit            *)
 (*                                  rejected kept-cell                                *)
+(* Merkle cell below the root.  XS = root[leaf, M[c[g1, g2]]], M a Merkle-proof cell  *)
+(* over the whole sub-tree c.                                                         *)
+(*  X1 prune g1 (beneath M): proof with a LEVEL-2 pruned branch; prune leaf: refused    *)
+(*     (M is reached); prune the root (M hidden): proof                  accepted     *)
+(*  X2 prune g1, the proof has an ordinary level-1 pruned branch beneath M              *)
+(*                                  rejected pruned-cell, class beneath-merkle          *)
+(*  X3 prune the root, refused although no Merkle cell is reached                       *)
+(*                                  rejected create-proof-error, class merkle           *)
+(*  X4 prune g1, refused (M is reached)                                  accepted     *)
 (* DT3 = {KA, KB, KC}; the source is the tree under the proof that keeps KA and KB.  *)
 (*  Q1 key A (prunes above the old pruned branch), key B (re-prunes it), key C       *)
 (*     (path pruned: anything but a panic), absent key refused         accepted     *)
@@ -96,6 +105,19 @@ HS1 == << HReset >> \o HoldScript \o << Cr(1, Proof(T2, 1, {<<1, 1>>})) >>
 HS2 == << HReset >> \o HoldScript \o << Cr(1, Proof(T2, 1, {<<1, 2>>})) >>     \* the position of r was pruned instead
 \* a kept cell rebuilt with only the tail of its data (as if a read cursor had been honoured)
 KS1 == << WReset, Cur(1), Ref0(1, 0), Pr(1), Cr(1, [PL EXCEPT ![2].b = SubSeq(@, 2, Len(@))]) >>
+\* ---- a Merkle-proof cell below the root
+XSub == << C(<<0,1,1,0>>, <<2, 3>>), C(<<1>>, <<>>), C(<<0,0>>, <<>>) >>
+XS == << C(<<1,0,1>>, <<2, 3>>), C(<<1,1,1,1,0>>, <<>>) >> \o Shift(Proof(XSub, 1, {}), 2)     \* rows: root, leaf, M, c, g1, g2
+IXS == InfoTable(XS)
+XReset == [k |-> "Reset", kind |-> "walk", src |-> "canary", mode |-> "boc", n |-> 0, cells |-> TableJsonM(XS), roots |-> <<0>>]
+ToG1(c) == << Cur(c), RefH(c, 0, 1, 1), RefH(c, 1, 2, 0), RefH(c, 2, 3, 0), PrH(c, 3) >>
+CrErr(c) == [k |-> "Create", c |-> c, h |-> 0, err |-> "e", panic |-> "", proof |-> ""]
+XG1 == Proof(XS, 1, {<<2, 1, 1>>})          \* rows: 1 Merkle proof, 2 root, 3 leaf, 4 M, 5 c, 6 g1 (pruned, level 2), 7 g2
+XG1L1 == WithMasks([XG1 EXCEPT ![6] = PrunedCell(IXS[5])])          \* an ordinary level-1 pruned branch in its place
+XSS1 == << XReset >> \o ToG1(1) \o << Cr(1, XG1), Cur(2), RefH(2, 0, 1, 0), PrH(2, 1), CrErr(2), Cur(3), PrH(3, 0), Cr(3, Proof(XS, 1, {<<>>})) >>
+XSS2 == << XReset >> \o ToG1(1) \o << Cr(1, XG1L1) >>
+XSS3 == << XReset, Cur(1), PrH(1, 0), CrErr(1) >>
+XSS4 == << XReset >> \o ToG1(1) \o << CrErr(1) >>
 KC == <<1,1,0,0,0,0,0,0>>   VC == [i \in 1..32 |-> IF i % 3 = 0 THEN 1 ELSE 0]
 DT3 == EncEdge(<< [k |-> KA, v |-> [b |-> VA, r |-> <<>>]], [k |-> KB, v |-> [b |-> VB, r |-> <<>>]], [k |-> KC, v |-> [b |-> VC, r |-> <<>>]] >>, 0, 8, <<"short">>, <<>>)
 KeepAB == KeepKeysPruneSet(DT3, 1, 8, {KA, KB})
@@ -106,12 +128,17 @@ QReset == [k |-> "Reset", kind |-> "dict", src |-> "canary", mode |-> "proof", n
 QKA == Proof(S3, 1, {<<2>>})    QKB == Proof(S3, 1, {<<1>>, <<2, 2>>})
 QS1 == << QReset, Key(KA, VA, QKA), Key(KB, VB, QKB), Refused(KC), Refused(KX) >>
 QS2 == << QReset, Key(KA, VA, [QKA EXCEPT ![1].b = BytesToBits(<<3>> \o IS3[1].h[4] \o U16(IS3[1].d[4]))]) >>
-All == WS1 \o WS2 \o WS3 \o WS4 \o WS5 \o WS6 \o DS1 \o DS2 \o DS3 \o DS4 \o DS5 \o DS6 \o PSS1 \o PSS2 \o PSS3 \o PSS4 \o QS1 \o QS2 \o HS1 \o HS2 \o KS1
+All == WS1 \o WS2 \o WS3 \o WS4 \o WS5 \o WS6 \o DS1 \o DS2 \o DS3 \o DS4 \o DS5 \o DS6 \o PSS1 \o PSS2 \o PSS3 \o PSS4 \o QS1 \o QS2 \o HS1 \o HS2 \o KS1 \o XSS1 \o XSS2 \o XSS3 \o XSS4
 Init == out = "todo"
-Next == out = "todo" /\ out' = "done" /\ PrintT(<<"VEC", ToJson([events |-> All, lens |-> <<Len(WS1), Len(WS2), Len(WS3), Len(WS4), Len(WS5), Len(WS6), Len(DS1), Len(DS2), Len(DS3), Len(DS4), Len(DS5), Len(DS6), Len(PSS1), Len(PSS2), Len(PSS3), Len(PSS4), Len(QS1), Len(QS2), Len(HS1), Len(HS2), Len(KS1)>>,
+Next == out = "todo" /\ out' = "done" /\ PrintT(<<"VEC", ToJson([events |-> All, lens |-> <<Len(WS1), Len(WS2), Len(WS3), Len(WS4), Len(WS5), Len(WS6), Len(DS1), Len(DS2), Len(DS3), Len(DS4), Len(DS5), Len(DS6), Len(PSS1), Len(PSS2), Len(PSS3), Len(PSS4), Len(QS1), Len(QS2), Len(HS1), Len(HS2), Len(KS1), Len(XSS1), Len(XSS2), Len(XSS3), Len(XSS4)>>,
                                                                 selfcheck |-> (WellFormed(PL) /\ WellFormed(P0) /\ WellFormed(PAB) /\ DecEdge(DT, 1, 8, <<>>).ok
                                                                                /\ SourceOK(S2) /\ Partial(S2) /\ S2[1].m = 1 /\ IS2[1].h[4] # IS2[1].h[1] /\ IS2[2].d[1] = 1
                                                                                /\ WellFormed(QB) /\ WellFormed(QA) /\ WellFormed(QR) /\ QA = Proof(S2, 1, {})
-                                                                               /\ KeepAB = {<<2, 2>>} /\ SourceOK(S3) /\ WellFormed(QKB))])>>)
+                                                                               /\ KeepAB = {<<2, 2>>} /\ SourceOK(S3) /\ WellFormed(QKB)
+                                                                               \* the proof with the level-2 pruned branch is well formed and hashes to the source; with a level-1
+                                                                               \* pruned branch in its place the level-0 hash is another one (the Merkle-proof root no longer matches)
+                                                                               /\ ExoticSourceOK(XS, 1) /\ WellFormed(XG1) /\ XG1[6].m = 2 /\ InfoTable(XG1)[2].h[1] = IXS[1].h[1]
+                                                                               /\ ~WellFormed(XG1L1) /\ MasksOK(XG1L1)
+                                                                               /\ InfoTable(XG1L1)[2].h[1] # IXS[1].h[1])])>>)
 Spec == Init /\ [][Next]_out
 =============================================================================
